@@ -1,4 +1,175 @@
-(* stub, replaced below *)
-From CM Require Import lib.Prelude model.CopyOps.
-Theorem C12_stub : True. Proof. exact I. Qed.
-Print Assumptions C12_stub.
+(* C12  Copy and merge carry frames over completely and never disturb the target.
+   Statements only; every proof is `exact <lemma>`; Print Assumptions follows each.
+   Model: model/CopyOps.v (the repaired copy.py: cc0f6c0 + fixes/C12_copy_ecu_existing + fixes/C12_direct_ecu_only_by_name);
+   vocabulary: model/CopySpec.v.  Envelope (visible hypotheses): ns_ok = attribute names are not shared across define
+   categories (one namespace, as in DBC); dicts_ok = the define dicts have unique keys (they are dicts); signal names are
+   unique within the copied frame (signal_by_name finds the first). *)
+From CM Require Import lib.Prelude model.CopyOps model.CopySpec
+  proofs.Copy_lib proofs.Copy_focus proofs.Copy_frame proofs.Copy_steps proofs.Copy_theorems proofs.Copy_ops
+  proofs.Copy_weak proofs.Copy_requested proofs.Copy_witness.
+
+(* ---- a frame whose identifier already exists in the target is refused and the target stays unchanged ---- *)
+Theorem C12_copy_frame_refused_unchanged :
+  forall id src t f,
+    frame_by_id id (m_frames src) = Some f -> frame_by_id id (m_frames t) <> None ->
+    copy_frame id src t = (false, t).
+Proof. exact copy_frame_refused_unchanged. Qed.
+Print Assumptions C12_copy_frame_refused_unchanged.
+
+(* ... and only then *)
+Theorem C12_copy_frame_refused_iff_present :
+  forall id src t f,
+    frame_by_id id (m_frames src) = Some f ->
+    fst (copy_frame id src t) = is_none (frame_by_id id (m_frames t)).
+Proof. exact copy_frame_result. Qed.
+Print Assumptions C12_copy_frame_refused_iff_present.
+
+(* ---- the new frame equals the source frame field by field: identifier, name, length, senders, comment, the remaining
+        frame fields, every explicit attribute, and signal by signal name, layout/type/scaling, receivers, value table;
+        it is appended behind the target's frames ---- *)
+Theorem C12_copy_frame_carries_frame :
+  forall id src t t',
+    copy_frame id src t = (true, t') ->
+    exists f f', frame_by_id id (m_frames src) = Some f /\ frame_by_id id (m_frames t) = None /\
+                 m_frames t' = m_frames t ++ [f'] /\ frame_carried f f'.
+Proof. exact copy_frame_carries_frame. Qed.
+Print Assumptions C12_copy_frame_carries_frame.
+
+(* ---- together with every ECU the frame references that the source defines, and every attribute definition the copied
+        frame, its signals and those ECUs use (a definition the target did not have is the source's: definition string,
+        type, default) ---- *)
+Theorem C12_copy_frame_brings_ecus_and_defines :
+  forall ns id src t t' f,
+    ns_ok ns src -> dicts_ok src -> NoDup (map s_name (f_sigs f)) ->
+    frame_by_id id (m_frames src) = Some f -> copy_frame id src t = (true, t') ->
+    (forall n, In n (frame_refs f) -> ecu_by_name n (m_ecus src) <> None -> ecu_by_name n (m_ecus t') <> None) /\
+    (forall a v, eff_frame src f a = Some v -> mem a (m_fdefs src) = true -> define_brought CFrame a src t t') /\
+    (forall s a v, In s (f_sigs f) -> eff_sig src s a = Some v -> mem a (m_sdefs src) = true ->
+        define_brought CSig a src t t') /\
+    (forall n e a v, In n (frame_refs f) -> ecu_by_name n (m_ecus src) = Some e -> ecu_by_name n (m_ecus t) = None ->
+        eff_ecu src e a = Some v -> mem a (m_edefs src) = true -> define_brought CEcu a src t t').
+Proof. exact copy_frame_brings_ecus_and_defines. Qed.
+Print Assumptions C12_copy_frame_brings_ecus_and_defines.
+
+(* ---- the effective value of each attribute of the copied objects equals its value in the source: for the frame, for
+        each of its signals (by position) and for each ECU it brought, whatever the target defined before (explicit value
+        or default in the source x definition absent / equal default / other default / no default in the target) ---- *)
+Theorem C12_copied_effective_values_equal_source :
+  forall ns id src t t' f,
+    ns_ok ns src -> dicts_ok src -> NoDup (map s_name (f_sigs f)) ->
+    frame_by_id id (m_frames src) = Some f -> copy_frame id src t = (true, t') ->
+    exists f', m_frames t' = m_frames t ++ [f'] /\
+      values_from (eff_frame src f) (eff_frame t' f') /\
+      Forall2 (fun s s' => values_from (eff_sig src s) (eff_sig t' s')) (f_sigs f) (f_sigs f') /\
+      (forall n e, In n (frame_refs f) -> ecu_by_name n (m_ecus src) = Some e -> ecu_by_name n (m_ecus t) = None ->
+         exists e', ecu_by_name n (m_ecus t') = Some e' /\ values_from (eff_ecu src e) (eff_ecu t' e')).
+Proof. exact copied_effective_values_equal_source. Qed.
+Print Assumptions C12_copied_effective_values_equal_source.
+
+(* a copied free signal: appended to the target's free signals, carried field by field, with the source's values *)
+Theorem C12_copy_signal_carries_signal_and_values :
+  forall s src t,
+    NoDup (keys (m_sdefs src)) ->
+    exists s', m_sigs (copy_one_signal s src t) = m_sigs t ++ [s'] /\ signal_carried s s' /\
+               values_from (eff_sig src s) (eff_sig (copy_one_signal s src t) s').
+Proof. exact copy_one_signal_values. Qed.
+Print Assumptions C12_copy_signal_carries_signal_and_values.
+
+(* ---- objects already in the target keep the effective value of every attribute the target already defined ---- *)
+(* copy_frame; the same for every operation below.  `keeps` says more: every object of the target is still there,
+   structurally unchanged, in front of what was added, and every definition keeps its string, type and default. *)
+Theorem C12_bystanders_keep_effective_values_copy_frame :
+  forall ns id src t,
+    ns_ok ns src -> ns_ok ns t ->
+    keeps t (snd (copy_frame id src t)) /\ bystanders_keep_values t (snd (copy_frame id src t)).
+Proof. exact copy_frame_bystanders. Qed.
+Print Assumptions C12_bystanders_keep_effective_values_copy_frame.
+
+(* every operation that does not delete ECUs: copy_frame, copy_ecu, copy_ecu_with_frames(direct_ecu_only=False),
+   copy_signal, merge of any number of sources *)
+Theorem C12_bystanders_keep_effective_values :
+  forall ns o t,
+    ns_ok ns t -> Forall (ns_ok ns) (op_sources o) -> op_deletes o = false ->
+    keeps t (apply_op t o) /\ bystanders_keep_values t (apply_op t o).
+Proof. exact op_bystanders. Qed.
+Print Assumptions C12_bystanders_keep_effective_values.
+
+(* the namespace hypothesis is necessary: a frame definition X in the source and a signal definition X in the target
+   (add_define_default writes into every category that knows the name) *)
+Theorem C12_shared_names_refuted :
+  exists id src t, ~ bystanders_keep_values t (snd (copy_frame id src t)).
+Proof. exact shared_names_refuted. Qed.
+Print Assumptions C12_shared_names_refuted.
+
+(* ---- all sequences of copies and merges ---- *)
+Theorem C12_bystanders_over_histories :
+  forall ns ops t,
+    ns_ok ns t -> Forall (fun o => Forall (ns_ok ns) (op_sources o)) ops -> Forall (fun o => op_deletes o = false) ops ->
+    keeps t (run_history t ops) /\ bystanders_keep_values t (run_history t ops).
+Proof. exact history_bystanders. Qed.
+Print Assumptions C12_bystanders_over_histories.
+
+(* including copy_ecu_with_frames(direct_ecu_only=True): ECUs may be deleted (never altered) and ECU names struck from the
+   transmitter / receiver lists of frames; every surviving object keeps every attribute value *)
+Theorem C12_bystanders_over_all_histories :
+  forall ns ops t,
+    ns_ok ns t -> Forall (fun o => Forall (ns_ok ns) (op_sources o)) ops ->
+    keeps_weakly t (run_history t ops) /\ bystanders_keep_values_weakly t (run_history t ops).
+Proof. exact history_bystanders_weakly. Qed.
+Print Assumptions C12_bystanders_over_all_histories.
+
+(* ---- copying an ECU ---- *)
+(* an ECU the target already lists is left alone (the repair of F-C12b) *)
+Theorem C12_copy_ecu_leaves_existing_ecu_alone :
+  forall e src t x, ecu_by_name (e_name e) (m_ecus t) = Some x -> copy_ecu_obj e src t = t.
+Proof. exact copy_ecu_obj_present. Qed.
+Print Assumptions C12_copy_ecu_leaves_existing_ecu_alone.
+
+(* copying an ECU with its frames copies exactly the frames it sends and/or receives, as requested: the target's frame
+   identifiers afterwards are the old ones followed by the requested ones that were not present yet, in request order *)
+Theorem C12_copy_ecu_with_frames_frame_set :
+  forall g rx tx direct src t,
+    ids_of (copy_ecu_with_frames g rx tx direct src t) = add_new_ids (ids_of t) (requested_ids g rx tx src).
+Proof. exact copy_ecu_with_frames_frame_set. Qed.
+Print Assumptions C12_copy_ecu_with_frames_frame_set.
+
+Theorem C12_add_new_ids_spec :
+  forall req have,
+    (exists l, add_new_ids have req = have ++ l) /\
+    (forall i, In i (add_new_ids have req) <-> In i have \/ In i req).
+Proof. exact add_new_ids_spec. Qed.
+Print Assumptions C12_add_new_ids_spec.
+
+(* the ECU that was asked for is in the target afterwards, also under direct_ecu_only (the repair of the by-value test) *)
+Theorem C12_requested_ecu_present :
+  forall g rx tx direct src t e,
+    In e (glob_ecus g src) ->
+    ecu_by_name (e_name e) (m_ecus (copy_ecu_with_frames g rx tx direct src t)) <> None.
+Proof. exact requested_ecu_present. Qed.
+Print Assumptions C12_requested_ecu_present.
+
+(* ---- merging applies the frame rule to every frame of the merged matrices ---- *)
+Theorem C12_merge_is_fold_of_copy_frame :
+  forall srcs t,
+    merge srcs t =
+    fold_left (fun t src => merge_env src (fold_left (fun t f => snd (copy_frame (fid f) src t)) (m_frames src) t)) srcs t.
+Proof. exact merge_is_fold_of_copy_frame. Qed.
+Print Assumptions C12_merge_is_fold_of_copy_frame.
+
+Theorem C12_merge_frame_rule :
+  forall srcs t,
+    ids_of (merge srcs t) = add_new_ids (ids_of t) (flat_map (fun s => map fid (m_frames s)) srcs).
+Proof. exact merge_frame_rule. Qed.
+Print Assumptions C12_merge_frame_rule.
+
+(* ---- the hypotheses are satisfiable on a non-trivial instance: ECU, frame and signal definitions with other defaults in
+        the target, bystanders of every kind; the copied objects have the source's value 2, the bystanders keep 1 ---- *)
+Example C12_envelope_inhabited :
+  ns_ok ex_ns ex_src /\ ns_ok ex_ns ex_tgt /\ dicts_ok ex_src /\
+  copy_frame (16, false) ex_src ex_tgt <> (false, ex_tgt) /\
+  let t' := snd (copy_frame (16, false) ex_src ex_tgt) in
+  map (fun e => eff_ecu t' e 21) (m_ecus t') = [Some 1; Some 2] /\
+  map (fun f => eff_frame t' f 11) (m_frames t') = [Some 1; Some 2] /\
+  map (fun f => map (fun s => eff_sig t' s 1) (f_sigs f)) (m_frames t') = [[Some 1]; [Some 2]] /\
+  m_err t' = false.
+Proof. exact envelope_inhabited. Qed.
